@@ -272,15 +272,54 @@ def descendRight (f : Flat) : Nat → Nat → List Nat → Option (List Nat)
     if s == e then (if f.isTerminal node then some out.reverse else none)
     else descendRight f fuel (f.edgeToChild.getD (e - 1) 0) (f.labels.getD (e - 1) 0 :: out)
 
-/-- `simd_first_ge` on `labels[s..e]`: absolute index of the first label `≥ tb`. -/
-def firstGe (f : Flat) (tb : Nat) : Nat → Nat → Option Nat
-  | 0, _ => none
-  | n + 1, i => if tb ≤ f.labels.getD i 0 then some i else firstGe f tb n (i + 1)
+/-- Index of the first `true` (`bits.trailing_zeros()` of a non-zero mask). -/
+def firstTrue : List Bool → Option Nat
+  | [] => none
+  | true :: _ => some 0
+  | false :: bs => (firstTrue bs).map (· + 1)
 
-/-- `simd_last_le` on `labels[s..s+n]`: absolute index of the last label `≤ tb`. -/
-def lastLe (f : Flat) (tb : Nat) (s : Nat) : Nat → Option Nat
-  | 0 => none
-  | n + 1 => if f.labels.getD (s + n) 0 ≤ tb then some (s + n) else lastLe f tb s n
+/-- Index of the last `true` (highest set bit of a non-zero mask). -/
+def lastTrue (bs : List Bool) : Option Nat :=
+  (firstTrue bs.reverse).map fun i => bs.length - 1 - i
+
+/-- `simd_first_ge(slice, tb)`, chunk by chunk as the code does it: while a full chunk of
+`lanes` labels is left, compare the chunk, **narrow the lane mask to `maskBits` bits**
+(`to_bitmask() as u16`) and take the lowest set bit; then the scalar tail. `lanes` and
+`maskBits` come from the source (`Snel.Gen.C08.surfGeLanes/surfGeMaskBits`); with
+`maskBits ≥ lanes` this is the first index with `slice[i] ≥ tb`. -/
+def simdFirstGe (lanes maskBits : Nat) (slice : List Nat) (tb : Nat) : Nat → Nat → Option Nat
+  | 0, _ => none
+  | fuel + 1, i =>
+    if 0 < lanes ∧ i + lanes ≤ slice.length then
+      match firstTrue ((((slice.drop i).take lanes).map fun v => decide (tb ≤ v)).take maskBits) with
+      | some j => some (i + j)
+      | none => simdFirstGe lanes maskBits slice tb fuel (i + lanes)
+    else
+      (firstTrue ((slice.drop i).map fun v => decide (tb ≤ v))).map (i + ·)
+
+/-- `simd_last_le(slice, tb)`: full chunks from the end, mask narrowed to `maskBits`,
+`j = (LANES - 1) - leading_zeros(bits)` where `leading_zeros` counts inside the narrowed
+mask; then the scalar loop downwards from `i`. -/
+def simdLastLe (lanes maskBits : Nat) (slice : List Nat) (tb : Nat) : Nat → Nat → Option Nat
+  | 0, _ => none
+  | fuel + 1, i =>
+    if 0 < lanes ∧ lanes ≤ i then
+      let start := i - lanes
+      match lastTrue ((((slice.drop start).take lanes).map fun v => decide (v ≤ tb)).take maskBits) with
+      | some hb => some (start + ((lanes - 1) - (maskBits - 1 - hb)))
+      | none => simdLastLe lanes maskBits slice tb fuel start
+    else
+      lastTrue ((slice.take i).map fun v => decide (v ≤ tb))
+
+/-- `simd_first_ge` on `labels[s..s+n]`: absolute index. -/
+def firstGe (f : Flat) (tb : Nat) (n s : Nat) : Option Nat :=
+  let slice := (f.labels.extract s (s + n)).toList
+  (simdFirstGe Snel.Gen.C08.surfGeLanes Snel.Gen.C08.surfGeMaskBits slice tb (slice.length + 1) 0).map (s + ·)
+
+/-- `simd_last_le` on `labels[s..s+n]`: absolute index. -/
+def lastLe (f : Flat) (tb : Nat) (s n : Nat) : Option Nat :=
+  let slice := (f.labels.extract s (s + n)).toList
+  (simdLastLe Snel.Gen.C08.surfLeLanes Snel.Gen.C08.surfLeMaskBits slice tb (slice.length + 1) slice.length).map (s + ·)
 
 def nodeFuel (f : Flat) : Nat := f.degrees.size + 2
 
